@@ -217,6 +217,6 @@ func init() {
 	reg.Register(&reg.Scenario{Property: "C14", Name: "three-writers", Body: body(false), Quick: 1, Thorough: 2,
 		Doc:      "client1: set 5, get || client2: one of {set 7, set -1, three wrongly-typed sets, set by id}, get || service: update 9, update -3 || the middle one of three subscribers leaves; porcupine against a register",
 		MustFlag: []string{"validator-rejected", "writes-reordered"}})
-	reg.Register(&reg.Scenario{Property: "C14", Name: "three-writers-statement-level", Body: body(true), Quick: -1, Thorough: 1,
+	reg.Register(&reg.Scenario{Property: "C14", Name: "three-writers-statement-level", Body: body(true), Quick: 1, Thorough: 2,
 		Doc: "same with bus/object.go interleaved at statement level"})
 }
